@@ -171,6 +171,34 @@ func ruleC15GuardedReach(c *Ctx) {
 	if reaching < half(15) {
 		c.unresolved("only %d exported fs methods reach a sink (expected >= 15): sink model is broken", reaching)
 	}
+	// ... and the exempted rebuild must stay available to read-only instances ("apart from building a missing index on
+	// first open"; read calls must answer like a writable twin): it is not control-dependent on the instance being writable
+	if initialize != nil && recIndex != nil {
+		k := 0
+		scan := func(fn *FuncInfo) {
+			fl := c.flow(fn)
+			info := fn.Pkg.TypesInfo
+			for _, cs := range fn.calls {
+				if cs.Target != recIndex {
+					continue
+				}
+				k++
+				gated, reach := fl.guardedBy(cs.Call, func(ft Fact) bool { return g.isROFact(info, ft) }, nil)
+				if !reach {
+					continue
+				}
+				c.verdictIf(!gated, rule, fn, fmt.Sprintf("rebuild#%d available read-only", k), cs.Call.Pos(), "the rebuild of a missing index is reachable for a read-only instance",
+					"the rebuild of a missing index is reachable only when the instance is writable: a read-only mount over a tape without an index fails (or stays empty) instead of showing what a writable instance shows")
+			}
+		}
+		scan(initialize)
+		for _, l := range c.litsIn(initialize) {
+			scan(l)
+		}
+		if k == 0 {
+			c.unresolved("Initialize no longer calls recovery.Index directly")
+		}
+	}
 	// the exemption must stay narrow: inside Initialize, the root-creating closure has to test readOnly itself
 	if initialize != nil {
 		for _, l := range c.litsIn(initialize) {
